@@ -4,7 +4,7 @@ import SuccinctlyVerif.Model.YamlPos
 import SuccinctlyVerif.Generated.C17
 import Driver.Util
 /-!
-Driver for C17.  Request: `C17 <op> <route> <text_len> <starts> <ends> <bp> <lookups> [CLASS:…]`
+Driver for C17.  Request: `C17 <op> <route> <text_len> <starts> <ends> <bp> <lookups>`
 
 * `op`: `get` (answers), `trace` (answers + stored cursor after every lookup), `build` (built
   tables), `chk` (verdict of the answers against the plain-list spec).
@@ -112,45 +112,30 @@ def expect (starts ends : List Nat) (bp : List Bool) (oDense : Bool) (idx : Nat)
     if idx + 1 ≥ len then (some (.inl none), len) else (some (.inl starts[idx + 1]?), idx + 1)
   | _ => (none, idx)
 
-def judge (starts ends : List Nat) (bp : List Bool) (oDense : Bool) (textLen : Nat) :
-    List String → List String → Nat → Nat → Option String → Nat × Option String
-  | it :: its, a :: as, idx, nClass, other =>
+def judge (starts ends : List Nat) (bp : List Bool) (oDense : Bool) :
+    List String → List String → Nat → Option String → Option String
+  | it :: its, a :: as, idx, other =>
     let (ex, idx') := expect starts ends bp oDense idx it
     let ok : Bool := match ex with
       | none => true
       | some (.inl v) => a == optStr v
       | some (.inr vs) => a == "-" || vs.any (fun v => a == toString v)
-    if ok then judge starts ends bp oDense textLen its as idx' nClass other
+    if ok then judge starts ends bp oDense its as idx' other
     else
-      let inClass : Bool := match ex with
-        | some (.inl (some v)) => !oDense && v == textLen && textLen % 64 == 0 &&
-            (it.front == 'o' || it.front == 'b' || it.front == 'K' || it.front == 'N')
-        | _ => false
-      if inClass then judge starts ends bp oDense textLen its as idx' (nClass + 1) other
-      else
-        let want := match ex with
-          | some (.inl v) => optStr v
-          | some (.inr vs) => "-|" ++ listStr vs
-          | none => "?"
-        judge starts ends bp oDense textLen its as idx' nClass (other <|> some s!"{it} got={a} want={want}")
-  | _, _, _, nClass, other => (nClass, other)
-
-def classTag : String := "CLASS:pos=len,len%64=0"
-
-/-- The class of finding F4: compact open table, a recorded start equals `text_len`, `text_len % 64 = 0`. -/
-def inClassReq (starts : List Nat) (textLen : Nat) : Bool :=
-  isMonotonic starts && textLen % 64 == 0 && starts.any (· == textLen)
+      let want := match ex with
+        | some (.inl v) => optStr v
+        | some (.inr vs) => "-|" ++ listStr vs
+        | none => "?"
+      judge starts ends bp oDense its as idx' (other <|> some s!"{it} got={a} want={want}")
+  | _, _, _, other => other
 
 def exec (a : List String) : String :=
   match a with
-  | op :: route :: tl :: ss :: es :: bp :: lk :: tag =>
+  | [op, route, tl, ss, es, bp, lk] =>
     let textLen := parseNat tl
     let starts := parseNats ss
     let ends := parseNats es
-    let tagged := tag == [classTag]
-    if tag ≠ [] ∧ ¬ tagged then "BAD-TAG(model)"
-    else if tagged ≠ inClassReq starts textLen then "BAD-TAG(model)"
-    else if route ≠ "hook" ∧ route ≠ "parts" then "BAD-ROUTE"
+    if route ≠ "hook" ∧ route ≠ "parts" then "BAD-ROUTE"
     else
       let o := OpenPositions.build popc selectCtz rate starts textLen
       let e := EndPositions.build popc selectCtz rate ends textLen
@@ -177,10 +162,9 @@ def exec (a : List String) : String :=
         if starts.any (· > textLen) ∨ ends.any (· > textLen) then "ORACLE-SKIP" else
         let r := runAll s items []
         if r.any (·.1 == "PANIC") then "PANIC" else
-        match judge starts ends bpBits oDense textLen items (r.map (·.1)) 0 0 none with
-        | (_, some msg) => s!"MODEL-SPEC other {msg}"
-        | (0, none) => "ORACLE-OK"
-        | (n, none) => s!"MODEL-SPEC class=pos=len,len%64=0 n={n}"
+        match judge starts ends bpBits oDense items (r.map (·.1)) 0 none with
+        | some msg => s!"MODEL-SPEC {msg}"
+        | none => "ORACLE-OK"
       | _ => "BAD-OP"
   | _ => "BAD-OP"
 
